@@ -256,12 +256,24 @@ func rtASTSemantics(a *aggregator, v *rtView, budget int) {
 				list.elems = append(list.elems, to)
 			}
 			ts.field("tree").v = list
+			before := tokenListStr(list)
 			res := it.callDecl(astFd, ts)
 			got := ""
 			if len(res) == 1 {
 				got = renderNode(res[0], map[*Obj]bool{}, 0)
 			}
 			n++
+			// AST() is an observer: the token list (what Execute and Tokens() read) is as before, and a
+			// second call builds the same tree
+			after := "<no token list>"
+			if l2, ok := ts.field("tree").v.(*SliceV); ok {
+				after = tokenListStr(l2)
+			}
+			if after != before || tokenListStr(list) != before {
+				bad = append(bad, fmt.Sprintf("derivation %s: AST() changes the token list from [%s] to [%s] (Execute and Tokens() read it afterwards)", d, before, after))
+			} else if res2 := it.callDecl(astFd, ts); len(res2) == 1 && renderNode(res2[0], map[*Obj]bool{}, 0) != got {
+				bad = append(bad, fmt.Sprintf("derivation %s: a second AST() builds %q, the first built %q", d, renderNode(res2[0], map[*Obj]bool{}, 0), got))
+			}
 			if want := d.expected(); got != want {
 				bad = append(bad, fmt.Sprintf("derivation %s: AST() builds %q, the derivation tree of non-empty tokens is %q", d, got, want))
 			}
@@ -319,14 +331,22 @@ func rtLineColSemantics(a *aggregator, v *rtView, maxLen int) {
 	// the alphabet: newline, an ordinary rune, and every other rune the function
 	// itself singles out by comparing with a constant (none today; a carriage
 	// return treated as a line break would show up here)
-	alphabet := []rune{'x', '\n'}
-	for _, r := range runeConstantsIn(it, fd) {
-		if r != '\n' && r != 'x' && r >= 0 && r < endSymbol {
-			alphabet = append(alphabet, r)
+	alphabet := []rune{'x', '\n', '𝄞'} // an ordinary rune, the line break, a rune outside the BMP (4 bytes, 2 UTF-16 units)
+	inAlpha := map[rune]bool{'x': true, '\n': true, '𝄞': true}
+	for _, k := range runeConstantsIn(it, fd) {
+		// a constant may be a threshold (c > 0xFFFF): its neighbours stand for the two sides
+		for _, r := range []rune{k, k + 1, k - 1} {
+			if !inAlpha[r] && r >= 0 && r < endSymbol && !(r >= 0xD800 && r <= 0xDFFF) {
+				inAlpha[r] = true
+				alphabet = append(alphabet, r)
+			}
 		}
 	}
 	if len(alphabet) > 4 {
 		maxLen = 4
+	}
+	if len(alphabet) > 7 {
+		maxLen = 3
 	}
 	var texts [][]rune
 	var gen func(prefix []rune, l int)
@@ -908,4 +928,16 @@ func routeSemantics(v *rtView) (bad []string, und string, n int) {
 	check("parser.PrintSyntaxTree()", run(func() { call(pname+".PrintSyntaxTree", parser(false)) }), plain)
 	check("parser.PrintSyntaxTree() with Pretty", run(func() { call(pname+".PrintSyntaxTree", parser(true)) }), pretty)
 	return bad, "", n
+}
+
+// tokenListStr renders a token list (rule[begin,end] …) for comparison.
+func tokenListStr(l *SliceV) string {
+	if l == nil {
+		return ""
+	}
+	var out []string
+	for _, e := range l.elems {
+		out = append(out, tokStr(e))
+	}
+	return strings.Join(out, " ")
 }
